@@ -411,7 +411,7 @@ pub fn build_trigger(a: &Value) -> (Option<vibesql_ast::CreateTriggerStmt>, Stri
         t,
         if g("gran") == "row" { "ROW" } else { "STATEMENT" },
         when_sql.as_ref().map(|w| format!(" WHEN ({})", w)).unwrap_or_default(),
-        body_sql
+        format!("BEGIN {}; END", body_sql)
     );
     let stmt = vibesql_ast::CreateTriggerStmt {
         trigger_name: g("n"),
@@ -637,11 +637,17 @@ impl Engine {
             "ctrg" => {
                 // triggers are created through the AST (the parser stores trigger bodies as formatted tokens that
                 // cannot be executed later; the repository's own tests build CreateTriggerStmt with RawSql as well)
+                // through the SQL front end (CREATE TRIGGER ... BEGIN <body>; END); VQ_TRIGGER_AST=1 builds the
+                // statement from the AST instead, as the repository's own tests do
                 let (stmt, text) = build_trigger(a);
                 sql = text;
-                match stmt {
-                    Some(st) => exec_stmt(&mut self.db, Statement::CreateTrigger(st)),
-                    None => Outcome { out: "err", cnt: 0, rows: None, msg: "cannot build trigger".into() },
+                if std::env::var("VQ_TRIGGER_AST").is_ok() {
+                    match stmt {
+                        Some(st) => exec_stmt(&mut self.db, Statement::CreateTrigger(st)),
+                        None => Outcome { out: "err", cnt: 0, rows: None, msg: "cannot build trigger".into() },
+                    }
+                } else {
+                    exec_sql(&mut self.db, &sql)
                 }
             }
             "dtrg" => {
